@@ -75,6 +75,16 @@ def generate(tier, seed):
     nhet = 60 if tier == "quick" else 10000
     for k in range(nhet):
         cases.append({"kind": "hetero", "seed": "%d:h:%d" % (seed, k), "cost": 20})
+    # systematic deletions inside every fragment of the ligand library and the DNA residues
+    from .. import fragments
+    for f in sorted(fragments.FRAGMENTS) + ["dna:DA", "dna:DG"]:
+        resn, atoms, expect = fragments.FRAGMENTS[f] if f in fragments.FRAGMENTS else fragments.nucleotide(f[4:])
+        names = [a[0] for a in atoms]
+        singles = [[n] for n in names]
+        pairs = [list(p) for p in itertools.combinations(names, 2)]
+        pick = singles + (pairs if tier == "thorough" else rng.sample(pairs, min(2, len(pairs))))
+        for d in pick:
+            cases.append({"kind": "fragment", "frag": f, "delete": d, "seed": "%d:fr:%s:%s" % (seed, f, "-".join(d)), "cost": 6})
     for k, m in enumerate(("empty", "remark-only", "water-only", "hydrogen-only", "ext-xyz", "ext-none", "ext-gz",
                            "ext-upper", "ext-mixed", "blank-lines", "ext-pqr", "ter-only")):
         cases.append({"kind": "reject", "mode": m, "seed": "%d:rej:%d" % (seed, k), "cost": 2})
@@ -288,6 +298,18 @@ def run_case(case, tier):
                     base = base[:pos + 1] + [oxt] + base[pos + 1:]
         recs, deleted = special(base, rng, case["mode"])
         desc["mode"] = case["mode"]
+    elif kind == "fragment":
+        from .. import fragments
+        base = sources.random_small_structure(rng, 60, 400)
+        frag, expect, dist = fragments.place_near(base, case["frag"], rng, dist_A=rng.uniform(3.0, 8.0))
+        if frag is None:
+            return util.finish(case, viol, counts, classes, False, desc, inconclusive="no placement")
+        dele = set(case["delete"])
+        kept = [a for a in frag if a.aname() not in dele]
+        deleted = [(a.resn, a.aname(), "HETATM") for a in frag if a.aname() in dele]
+        recs = base + ([pdbio.raw("TER")] if case["frag"].startswith("dna:") else []) + kept
+        desc.update({"frag": case["frag"], "deleted": sorted(dele)})
+        classes.append("fragment-truncated")
     else:
         # hetero: cut-out around a ligand / ion, delete some of the hetero atoms (and a few others)
         fname = rng.choice(("1HPX.pdb", "4DFR.pdb", "1FTJ-Chain-A.pdb"))
